@@ -11,8 +11,11 @@ def insertBy {α} (lt : α → α → Bool) (x : α) : List α → List α
   | [] => [x]
   | y :: ys => if lt x y then x :: y :: ys else y :: insertBy lt x ys
 
-/-- insertion sort, stable; the reference for CPython's `sorted` on the
-    strictly totally ordered inputs it is applied to (see C07 `sorted_unique`) -/
+/-- insertion sort (head inserted last, so elements with equivalent keys come out in
+    REVERSED input order: C07 `sortBy_antistable`); the reference for CPython's `sorted`
+    on the strictly totally ordered inputs it is applied to — set elements and map keys,
+    where no two elements are equivalent and every correct sort returns the same list
+    (C07 `sorted_unique`) -/
 def sortBy {α} (lt : α → α → Bool) : List α → List α
   | [] => []
   | x :: xs => insertBy lt x (sortBy lt xs)
